@@ -111,9 +111,65 @@ async fn run_history(dir: String, idx: usize, hist: Vec<usize>) -> Outcome {
     Outcome { hist, verdict, ambiguous, backend_calls: calls_expected, cache_hits: hits }
 }
 
+/// Trust anchors a TLS connector ends up with, for every kind of `ca` setting. Only an absent `ca` may mean "the
+/// public roots" (that is the documented default); a configured file must contribute exactly its certificates or be
+/// refused - otherwise upstreams are accepted whose certificate does not chain to the configured CA.
+fn trust_anchor_grid(chk: &Check) -> Vec<serde_json::Value> {
+    use crate::common::tls::TlsClientConfig;
+    let dir = format!("{}/target/c07-ca-{}", VERIF_DIR, std::process::id());
+    let _ = std::fs::create_dir_all(&dir);
+    let certs = format!("{}/target/certs", VERIF_DIR);
+    let ca_pem = std::fs::read_to_string(format!("{certs}/ca.crt")).unwrap_or_default();
+    let key_pem = std::fs::read_to_string(format!("{certs}/server.key")).unwrap_or_default();
+    if !ca_pem.contains("BEGIN CERTIFICATE") {
+        machinery(format!("test CA missing in {certs} (bin/setup creates it)"));
+    }
+    let public = webpki_roots::TLS_SERVER_ROOTS.0.len();
+    let files: Vec<(&str, Option<String>, Option<usize>)> = vec![
+        // (kind, file content, number of anchors expected: None = must be refused)
+        ("ca absent", None, Some(public)),
+        ("ca = the test CA", Some(ca_pem.clone()), Some(1)),
+        ("ca = the test CA twice", Some(format!("{ca_pem}{ca_pem}")), Some(2)),
+        ("ca = empty file", Some(String::new()), None),
+        ("ca = a private key only", Some(key_pem.clone()), None),
+        ("ca = text without PEM block", Some("not a certificate\n".to_string()), None),
+        ("ca = key followed by the test CA", Some(format!("{key_pem}{ca_pem}")), Some(1)),
+    ];
+    let mut out = vec![];
+    for (i, (kind, content, want)) in files.iter().enumerate() {
+        let yaml = match content {
+            None => "insecure: false\n".to_string(),
+            Some(c) => {
+                let f = format!("{dir}/ca{i}.pem");
+                std::fs::write(&f, c).unwrap();
+                format!("ca: {f}\ninsecure: false\n")
+            }
+        };
+        let cfg: TlsClientConfig = serde_yaml::from_str(&yaml).expect("tls client config");
+        let got = catch(|| cfg.root_store().map(|s| s.roots.len()).map_err(|e| e.to_string()));
+        let shown = format!("{:?}", got);
+        match (got, want) {
+            (Err(p), _) => chk.violation("tls.trust", "panic", format!("{kind}: {p}"), json!({"ca": kind})),
+            (Ok(Ok(n)), Some(w)) if n == *w => {}
+            (Ok(Err(_)), None) => {}
+            (Ok(Ok(n)), None) => chk.violation(
+                "tls.trust",
+                if n == public { "configured-ca-without-certificate-falls-back-to-public-roots" } else { "configured-ca-without-certificate-accepted" },
+                format!("{kind}: the connector would trust {n} anchors ({public} = the bundled public roots); an upstream certified by any of them is accepted although it does not chain to the configured CA"),
+                json!({"ca": kind, "anchors": n}),
+            ),
+            (Ok(r), Some(w)) => chk.violation("tls.trust", "wrong-trust-anchors", format!("{kind}: expected {w} anchors, got {:?}", r), json!({"ca": kind})),
+        }
+        out.push(json!({"ca": kind, "trust_anchors": shown}));
+    }
+    let _ = std::fs::remove_dir_all(&dir);
+    out
+}
+
 #[test]
 fn check() {
     let chk = Check::new("C07");
+    let trust = trust_anchor_grid(&chk);
     let maxlen = if chk.thorough() { 5 } else { 4 };
     let mut hists: Vec<Vec<usize>> = vec![];
     let mut cur: Vec<Vec<usize>> = vec![vec![]];
@@ -173,7 +229,7 @@ fn check() {
         "states": distinct.len(), "transitions": outcomes.iter().map(|o| o.hist.len() as u64).sum::<u64>(), "traces_validated_against_impl": n - ambiguous,
         "evaluations": n, "distinct_nontrivial": hits,
         "rule": format!("all event histories of length <= {} over {:?} that end in a check and contain >= 2 checks, each on a fresh real AuthData with an external command backend and cache.timeout = 1 s (real clock). non-trivial = checks answered from the cache. states = distinct (backend calls, cache hits, ok) triples", maxlen, EVENTS),
-        "histories": n, "cache_hits": hits, "backend_calls": calls, "discarded_for_timing": ambiguous,
+        "trust_anchor_grid": trust, "histories": n, "cache_hits": hits, "backend_calls": calls, "discarded_for_timing": ambiguous,
         "samples": [{"history": ["check(u1,p1)", "check(u1,p2)"], "expect": "second check reaches the backend and is refused"}, {"history": ["check(u1,p1)", "flip(u1,p1)", "wait1.3", "check(u1,p1)"], "expect": "backend asked again after expiry: refused"}],
     });
     chk.finish(
